@@ -28,6 +28,10 @@ def engine_fn(engine):
         from .replay_system import run_vector
     elif engine == "tables":
         from .replay_tables import run_vector
+    elif engine == "workflow":
+        from .replay_workflow import run_vector
+    elif engine == "trace":
+        raise ValueError("recorded traces are re-validated by re-running the check (TLC decides them)")
     elif engine == "export":
         from .replay_export import run_vector
     else:
